@@ -142,6 +142,10 @@ def render_def(prog, d):
         return "%s = %s\n" % (d["name"], d["target"])
     if d["k"] == "wrapper":
         return "%s = _verif_wrap(%s)\n" % (d["name"], d["target"])
+    if d["k"] == "query":
+        # a module-level statement that asks a memento function for its version while the module is still being
+        # executed (as `g = f.force_local()` or a call at import time would); None under the identity decorator
+        return "%s = verif_rt.ver(%s)\n" % (d["name"], d["target"])
     lines = []
     if d["memento"]:
         args = []
@@ -175,8 +179,9 @@ def fix_order(prog, defs):
         moved = False
         names = [d["name"] for d in defs]
         for i, d in enumerate(defs):
-            if d["k"] == "fn" and d.get("fdef") and names.index(d["fdef"]) > i:
-                defs.insert(names.index(d["fdef"]), defs.pop(i))
+            dep = d.get("fdef") if d["k"] == "fn" else (d.get("target") if d["k"] == "query" else None)
+            if dep and names.index(dep) > i:
+                defs.insert(names.index(dep), defs.pop(i))
                 moved = True
                 break
         if not moved:
@@ -214,7 +219,7 @@ def edges(prog, name, include_hidden=True):
     d = find(prog, name)
     if d["k"] in ("alias", "wrapper"):
         return [d["target"]], []
-    if d["k"] == "var":
+    if d["k"] in ("var", "query"):
         return [], []
     cs, vs = [], []
     if d.get("fdef"):
@@ -429,7 +434,7 @@ def apply_edit(prog, edit, tag):
 # ------------------------------------------------------------------------------------------
 
 def program_strategy(max_fns=6, two_modules=True, allow_hidden=True, allow_explicit=True, allow_cluster=True,
-                     str_sets=True, allow_hidden_plain=False, allow_alias=True, explicit_f0=False, value_heavy=False, allow_fdef=False, allow_dictset=False, allow_init=False):
+                     str_sets=True, allow_hidden_plain=False, allow_alias=True, explicit_f0=False, value_heavy=False, allow_fdef=False, allow_dictset=False, allow_init=False, allow_query=False):
     from hypothesis import strategies as st
 
     small = st.integers(0, 9)
@@ -542,6 +547,10 @@ def program_strategy(max_fns=6, two_modules=True, allow_hidden=True, allow_expli
             d["body"] = body
             defs.append(d)
         defs += extra
+        if allow_query:
+            for qi in range(draw(st.integers(0, 2))):
+                tgt = draw(st.sampled_from([n for n in fnames if fmem[n]]))
+                defs.append({"k": "query", "mod": fmods[tgt], "name": "_vq%d" % qi, "target": tgt})
         # definition order: vars and functions interleaved arbitrarily, aliases/wrappers after their targets
         order = draw(st.permutations(range(len(defs))))
         ordered = [defs[i] for i in order]
@@ -592,6 +601,8 @@ def features(prog):
         f.add("dict-from-set")
     if any(d["k"] in ("alias", "wrapper") for d in prog["defs"]):
         f.add("alias-or-wrapper")
+    if any(d["k"] == "query" for d in prog["defs"]):
+        f.add("version-query-at-import")
     return sorted(f)
 
 
